@@ -180,15 +180,8 @@ func EmitCases(g *h.G, s *tlmini.Schema, tys []*tlmini.Ty, n int, reqOp, key str
 			if err != nil {
 				h.Fatalf("reference encoder: %v", err)
 			}
-			switch g.Rng.Intn(8) {
-			case 0: // liteServer.error
-				ev := gen.Fields(errDecl, 0)
-				eb, _ := s.EncodeFields(errDecl.Fields, ev)
-				g.Count("answer_error")
-				g.Emit("tl.ans", sub, d.Ctor, h.Hex(append(tlmini.Le32(errDecl.ID), eb...)))
-			case 1: // wrong tag: the id of some other declaration, or a flipped bit - never another constructor of the
-				// result type (that would be a malformed value of the right type: property C08, not this one)
-				bad := append([]byte{}, rb...)
+			otherTag := func() []byte { // a leading id that is neither a constructor of the result type nor liteServer.error
+				bad := append([]byte{}, rb[:4]...)
 				for {
 					if g.Rng.Intn(2) == 0 {
 						copy(bad, tlmini.Le32(all[g.Rng.Intn(len(all))].ID))
@@ -202,17 +195,71 @@ func EmitCases(g *h.G, s *tlmini.Schema, tys []*tlmini.Ty, n int, reqOp, key str
 						clash = clash || c.ID == tag
 					}
 					if !clash {
+						return bad
+					}
+				}
+			}
+			errAnswer := func(class int) []byte { // liteServer.error of every code class / message length class
+				codes := []uint64{0, 1, 651, 228, 0x7fffffff, 0x80000000, 0xfffffdc5 /* -571 */, 0xffffffff, uint64(g.Rng.Uint32())}
+				msgs := [][]byte{{}, []byte("block is not applied"), []byte("x"), g.Bytes(3), g.Bytes(253), g.Bytes(254), g.Bytes(255), g.Bytes(300 + g.Rng.Intn(700))}
+				ev := []*tlmini.Val{{K: tlmini.VNum, N: codes[class%len(codes)]}, {K: tlmini.VRaw, B: msgs[(class/len(codes)+class)%len(msgs)]}}
+				if len(errDecl.Fields) != 2 {
+					ev = gen.Fields(errDecl, 0)
+				}
+				eb, err := s.EncodeFields(errDecl.Fields, ev)
+				if err != nil {
+					eb, _ = s.EncodeFields(errDecl.Fields, gen.Fields(errDecl, 0))
+				}
+				return append(tlmini.Le32(errDecl.ID), eb...)
+			}
+			switch i % 10 {
+			case 1: // liteServer.error, every code class in turn
+				g.Count("answer_error")
+				g.Emit("tl.ans", sub, d.Ctor, h.Hex(errAnswer(i/10+g.Rng.Intn(64))))
+			case 2: // wrong tag (never another constructor of the result type: that is a malformed value, property C08)
+				g.Count("answer_wrong_tag")
+				g.Emit("tl.ans", sub, d.Ctor, h.Hex(append(otherTag(), rb[4:]...)))
+			case 3: // a complete, valid value - of another type
+				for try := 0; try < 20; try++ {
+					o := all[g.Rng.Intn(len(s.Types))]
+					if o.Result == d.Result || o.ID == errDecl.ID {
+						continue
+					}
+					gen.Budget = 30
+					oty := &tlmini.Ty{Kind: tlmini.KBoxed, Name: o.Result}
+					ob, err := s.Encode(oty, gen.Val(oty, 0))
+					tag := uint32(ob[0]) | uint32(ob[1])<<8 | uint32(ob[2])<<16 | uint32(ob[3])<<24
+					clash := err != nil || tag == errDecl.ID
+					for _, c := range s.CtorsOf(d.Result) {
+						clash = clash || c.ID == tag
+					}
+					if !clash {
+						g.Count("answer_other_type")
+						g.Emit("tl.ans", sub, d.Ctor, h.Hex(ob))
 						break
 					}
 				}
-				g.Count("answer_wrong_tag")
-				g.Emit("tl.ans", sub, d.Ctor, h.Hex(bad))
-			case 2: // too short for a tag, or cut inside the value
+			case 4: // shorter than a constructor id, or the id alone
+				g.Count("answer_truncated_tag")
+				g.Emit("tl.ans", sub, d.Ctor, h.Hex(rb[:g.Rng.Intn(5)]))
+			case 5: // cut inside the value / inside a liteServer.error
 				g.Count("answer_truncated")
-				g.Emit("tl.ans", sub, d.Ctor, h.Hex(rb[:g.Rng.Intn(len(rb))]))
-			case 3: // trailing bytes after the value are ignored by the generated code
+				cut := rb
+				if g.Rng.Intn(3) == 0 {
+					cut = errAnswer(g.Rng.Intn(64))
+				}
+				g.Emit("tl.ans", sub, d.Ctor, h.Hex(cut[:g.Rng.Intn(len(cut))]))
+			case 6: // oversized: bytes after the value are ignored by the generated code
 				g.Count("answer_trailing")
-				g.Emit("tl.ans", sub, d.Ctor, h.Hex(append(rb, g.Bytes(1+g.Rng.Intn(8))...)))
+				extra := 1 + g.Rng.Intn(8)
+				if g.Rng.Intn(4) == 0 {
+					extra = 1000 + g.Rng.Intn(3096)
+				}
+				ans := rb
+				if g.Rng.Intn(4) == 0 {
+					ans = errAnswer(g.Rng.Intn(64))
+				}
+				g.Emit("tl.ans", sub, d.Ctor, h.Hex(append(append([]byte{}, ans...), g.Bytes(extra)...)))
 			default:
 				g.Count("answer_result")
 				g.Emit("tl.ans", sub, d.Ctor, h.Hex(rb))
